@@ -283,12 +283,12 @@ class Translator:
 
     def _call(self, e, env, pre):
         m = self.m
-        if e.keywords and not m.allow_keywords(e):
-            fail(e, "keyword arguments")
         f = e.func
         sp = m.special_call(e, env, self, pre)
         if sp is not None:
             return sp
+        if e.keywords and not m.allow_keywords(e):
+            fail(e, "keyword arguments")
         if isinstance(f, ast.Attribute) and isinstance(f.value, ast.Name) and f.value.id in m.module_aliases:
             dotted = f"{f.value.id}.{f.attr}"
             if dotted in m.funcs:
@@ -888,7 +888,7 @@ class ModuleCfg:
         raise TransError(f"truthiness of type tag {tag}")
 
     def coq_name(self, py):
-        reserved = {"type", "end", "in", "at", "as", "return", "match", "with", "let", "fun", "forall", "exists", "if", "then", "else", "fix", "Type", "Set", "Prop"}
+        reserved = {"ret", "bind", "type", "end", "in", "at", "as", "return", "match", "with", "let", "fun", "forall", "exists", "if", "then", "else", "fix", "Type", "Set", "Prop"}
         return py + "_" if py in reserved or py.endswith("_") else py
 
     def dict_literal(self, e, env, tr, pre):
